@@ -82,6 +82,11 @@ def eval_expr(e: ast.expr, env: dict[str, Any], oracle: Oracle | None = None) ->
         return eval_expr(e.value, env, oracle)
     if isinstance(e, ast.Subscript):
         base = eval_expr(e.value, env, oracle)
+        if isinstance(base, dict) and not isinstance(e.slice, ast.Slice):
+            k = eval_expr(e.slice, env, oracle)
+            if k not in base:
+                raise Raised(ast.Raise(exc=ast.Name(id="KeyError", ctx=ast.Load()), cause=None))
+            return base[k]
         if isinstance(base, (str, bytes, list, tuple)):
             if isinstance(e.slice, ast.Slice):
                 lo = eval_expr(e.slice.lower, env, oracle) if e.slice.lower is not None else None
